@@ -720,6 +720,17 @@ func (d *docGen) sels(container int, depth int) []sx.S {
 					iid := d.id()
 					out = append(out, sx.L("in", iid, "99", sx.L("dirs"), sx.L("f", d.id(), "-", "0", sx.L("args"), sx.L("dirs"))))
 					d.defectInfo = sx.L("defect", "undefined-inline-cond", iid, "99")
+				case "directive-on-fragment-definition":
+					// the definition comes after the spread that refers to it (fragments are printed last)
+					d.nfrag++
+					frid := d.id()
+					dir := sx.L("d", "7", "-")
+					if d.r.Intn(2) == 0 {
+						dir = sx.L("d", "skip", sx.L("b", "1"))
+					}
+					d.frags = append(d.frags, sx.L("frag", sx.A(d.nfrag), sx.A(container), sx.L("fdirs", dir), sx.L("f", d.id(), "-", "0", sx.L("args"), sx.L("dirs"))))
+					out = append(out, sx.L("fr", frid, sx.A(d.nfrag), sx.L("dirs")))
+					d.defectInfo = sx.L("defect", "directive-on-fragment-definition", frid, "7")
 				case "undefined-fragment-cond":
 					d.nfrag++
 					frid := d.id()
@@ -1088,7 +1099,7 @@ var profC10 = profile{noWrongType: true, pFail: 0.03, pIll: 0.01, pDir: 0.15, pA
 // c10Gen: valid documents with exactly one injected defect of the property's catalogue.
 func c10Gen(r *rand.Rand, tier string) []Case {
 	kinds := []string{"unknown-field", "undeclared-arg", "missing-required", "unknown-directive", "misplaced-directive",
-		"undefined-inline-cond", "undefined-fragment-cond"}
+		"undefined-inline-cond", "undefined-fragment-cond", "directive-on-fragment-definition"}
 	n := 3500
 	if tier == "thorough" {
 		n = 50000
